@@ -172,7 +172,10 @@ def impl_coverage(case, landscape):
 # healpy cross-check (numerical testing of the unproved clause; runs with x64 enabled)
 
 
-def healpy_directions(nside, nrandom, rng):
+def healpy_directions(nside, nrandom, rng, every_class=True):
+    """Test directions by class.  every_class=False keeps the classes that are well-conditioned when the angle
+    arithmetic runs in float32 (no direction placed on purpose within 1e-6 rad of a pixel boundary or of the
+    phi = 2 pi wrap)."""
     import healpy as hp
     import numpy as np
 
@@ -188,13 +191,31 @@ def healpy_directions(nside, nrandom, rng):
 
     npix = 12 * nside * nside
     z = rng.uniform(-1, 1, nrandom)
-    add(np.arccos(z), rng.uniform(0, 2 * np.pi, nrandom), 'random')
+    add(np.arccos(z), rng.uniform(0, 2 * np.pi if every_class else 6.28, nrandom), 'random')
     if nside <= 16:
         t, p = hp.pix2ang(nside, np.arange(npix))
         add(t, p, 'centre')
     else:
         t, p = hp.pix2ang(nside, rng.integers(0, npix, 2000))
         add(t, p, 'centre')
+    # centres of the pixels whose NUMBER is a corner of an integer / floating-point representation (2^k and
+    # neighbours, odd numbers above 2^24, the last pixels of the map, first and last pixel of random rings)
+    corners = {0, 1, 2, 3, npix - 1, npix - 2, npix - 3, npix // 2, npix // 2 - 1, npix // 2 + 1}
+    for k in range(8, 64):
+        for d in (-3, -1, 0, 1, 3):
+            corners.add(2**k + d)
+            corners.add(npix - 2**k + d)
+    corners |= {int(v) | 1 for v in rng.integers(npix // 2, npix, 200)}
+    for r in rng.integers(1, 4 * nside, 40):
+        r = int(r)
+        first = 2 * r * (r - 1) if r < nside else (2 * nside * (nside - 1) + (r - nside) * 4 * nside if r <= 3 * nside else npix - 2 * (4 * nside - r) * (4 * nside - r + 1))
+        corners |= {first, first - 1, first + 1}
+    corners = np.array(sorted(c for c in corners if 0 <= c < npix), dtype=np.int64)
+    t, p = hp.pix2ang(nside, corners)
+    add(t, p, 'index-corner')
+    if not every_class:
+        theta = np.clip(np.concatenate(th), 0.0, np.pi)
+        return theta, np.concatenate(ph), tag
     # between consecutive rings (ring r has z = 1 - r^2/(3 nside^2) in the caps, 4/3 - 2r/(3 nside)
     # in the belt) and at the polar-cap / equatorial-belt transition z = +-2/3
     def ring_z(r):
@@ -231,55 +252,178 @@ def healpy_directions(nside, nrandom, rng):
     return theta, np.concatenate(ph), tag
 
 
-def healpy_check(nsides, nrandom, seed):
+EPS32 = 2.0**-23
+
+
+def np_dtype(name):
+    import numpy as np
+
+    return {'float32': np.float32, 'float64': np.float64, 'float16': np.float16}[name]
+
+
+def effective_angles(theta, phi, angle_dtype, x64):
+    """The angle values the code really sees (float64 arrays holding them exactly) and whether the angle
+    arithmetic runs in single precision.  With x64 disabled every array is float32."""
+    import numpy as np
+
+    single = angle_dtype == 'float32' or not x64
+    theta = np.atleast_1d(np.asarray(theta, dtype=np.float64))
+    phi = np.atleast_1d(np.asarray(phi, dtype=np.float64))
+    if single:
+        below_pi = np.nextafter(np.float32(np.pi), np.float32(0))  # float32(pi) > pi: healpy would reject it
+        theta = np.minimum(theta.astype(np.float32), below_pi).astype(np.float64)
+        phi = phi.astype(np.float32).astype(np.float64)
+    return theta, phi, single
+
+
+def angle_tolerance(theta, single):
+    """Radius (rad) of the disc around a direction inside which the rounding of the angle arithmetic may
+    legitimately move it: 1e-9 in double precision; in single precision 16 ulp of the pixel arithmetic plus the
+    cancellation of 1 - |cos(theta)| near the poles (error eps / sin(theta) on theta)."""
+    import numpy as np
+
+    if not single:
+        return 1e-9 + 0.0 * theta
+    return 16 * EPS32 * (1.0 + 1.0 / np.maximum(np.sin(theta), 1e-6))
+
+
+def explained_by_rounding(nside, theta, phi, got, single):
+    """Is pixel `got` within the rounding tolerance of the direction?  (superset test: healpy.query_disc with
+    inclusive=True returns every pixel that overlaps the disc)"""
+    import healpy as hp
+    import numpy as np
+
+    npix = 12 * nside * nside
+    if not (0 <= got < npix):
+        return False
+    r = float(angle_tolerance(np.float64(theta), single))
+    fact = max(1, min(2**29 // nside, 4096))
+    disc = hp.query_disc(nside, hp.ang2vec(theta, phi), min(r, np.pi), inclusive=True, fact=fact)
+    return bool(np.any(disc == got))
+
+
+def exact_capacity(dtype) -> int:
+    """Largest M such that every integer 0..M is exactly representable in the dtype."""
+    import numpy as np
+
+    dt = np.dtype(dtype)
+    if dt.kind in 'iu':
+        return int(np.iinfo(dt).max)
+    if dt.kind == 'f':
+        return 2 ** (np.finfo(dt).nmant + 1)
+    return 0
+
+
+def healpy_eval(nside, dtype, angle_dtype, theta, phi):
+    """world2pixel / world2index of a HealpixLandscape(nside, dtype=dtype) on the directions, in THIS process's
+    x64 mode, next to healpy.ang2pix (ring) on the angle values the code saw."""
     import healpy as hp
     import jax.numpy as jnp
     import numpy as np
 
-    from furax.landscapes import HealpixLandscape
+    x64 = x64_mode()
+    key = ('healpy', nside, dtype)
+    if key not in _cls:
+        from furax.landscapes import HealpixLandscape
+
+        _cls[key] = HealpixLandscape(nside, 'I', dtype=np_dtype(dtype))
+    landscape = _cls[key]
+    th, ph, single = effective_angles(theta, phi, angle_dtype, x64)
+    jt = jnp.asarray(th, dtype=np_dtype(angle_dtype))
+    jp = jnp.asarray(ph, dtype=np_dtype(angle_dtype))
+    pixels = landscape.world2pixel(jt, jp)
+    index = landscape.world2index(jt, jp)
+    return {
+        'theta': th,
+        'phi': ph,
+        'single': single,
+        'npixels': len(pixels) if isinstance(pixels, (tuple, list)) else None,
+        'pixel': np.asarray(pixels[0]) if isinstance(pixels, (tuple, list)) and len(pixels) else np.asarray(pixels),
+        'index': np.asarray(index),
+        'healpy': np.asarray(hp.ang2pix(nside, th, ph)),
+    }
+
+
+def healpy_judge(nside, ev, i):
+    """The 'agrees with healpy' clause on direction i of an evaluation: None or a message."""
+    import numpy as np
+
+    npix = 12 * nside * nside
+    pix, idx = ev['pixel'], ev['index']
+    if ev['npixels'] != 1:
+        return f'world2pixel returned {ev["npixels"]} coordinates for a 1-d map'
+    if exact_capacity(pix.dtype) < npix - 1:
+        return f'world2pixel returns {pix.dtype}, which cannot hold every pixel number below npix={npix} exactly'
+    if idx.dtype.kind not in 'iu' or exact_capacity(idx.dtype) < npix - 1:
+        return f'world2index returns {idx.dtype}, not an integer type wide enough for npix={npix}'
+    if pix.shape != ev['healpy'].shape or idx.shape != ev['healpy'].shape:
+        return f'world2pixel/world2index shapes {pix.shape}/{idx.shape} for directions of shape {ev["healpy"].shape}'
+    got, exp, p = int(idx[i]), int(ev['healpy'][i]), pix[i]
+    if not np.isfinite(p) or float(p) != float(int(p)) or int(p) != got:
+        return f'world2pixel={p!r} is not the integer world2index={got}'
+    if got != exp and not explained_by_rounding(nside, float(ev['theta'][i]), float(ev['phi'][i]), got, ev['single']):
+        tol = float(angle_tolerance(np.float64(ev['theta'][i]), ev['single']))
+        return f'world2index={got} but healpy.ang2pix={exp} (nside={nside}; pixel {got} is not within {tol:.1e} rad of the direction)'
+    return None
+
+
+def healpy_case(nside, dtype, angle_dtype, theta, phi):
+    return {'kind': 'healpy', 'nside': int(nside), 'dtype': dtype, 'angle_dtype': angle_dtype, 'theta': float(theta), 'phi': float(phi), 'x64': x64_mode()}
+
+
+def healpy_check(configs, seed):
+    """configs: [nside, landscape dtype, angle dtype, nrandom, hard].  `hard` configurations use every class of
+    directions (double precision angles); the others (single precision angle arithmetic) use the classes that
+    are well-conditioned in float32 (random directions away from the phi wrap, pixel centres, index corners)
+    and the float32 tolerance."""
+    import numpy as np
 
     rng = np.random.default_rng(seed)
-    out = {'x64': x64_mode(), 'per_nside': {}, 'failures': [], 'boundary_mismatches': 0, 'directions': 0}
-    for nside in nsides:
-        theta, phi, tag = healpy_directions(nside, nrandom, rng)
-        got = np.asarray(HealpixLandscape(nside, 'I').world2index(jnp.asarray(theta), jnp.asarray(phi)))
-        exp = hp.ang2pix(nside, theta, phi)
-        bad = np.nonzero(got != exp)[0]
-        nb = 0
-        for i in bad:
-            # within 1e-9 rad of a pixel boundary?  healpy itself changes its answer nearby
-            near = set()
-            for dt in (-1e-9, 0.0, 1e-9):
-                for dp in (-1e-9, 0.0, 1e-9):
-                    near.add(int(hp.ang2pix(nside, float(np.clip(theta[i] + dt, 0, np.pi)), float(phi[i] + dp))))
-            if int(got[i]) in near:
-                nb += 1
-            elif len(out['failures']) < 5:
+    out = {'x64': x64_mode(), 'per_config': {}, 'failures': [], 'boundary_mismatches': 0, 'directions': 0}
+    for nside, dtype, angle_dtype, nrandom, hard in configs:
+        theta, phi, tag = healpy_directions(nside, nrandom, rng, every_class=hard)
+        ev = healpy_eval(nside, dtype, angle_dtype, theta, phi)
+        name = f'nside={nside} dtype={dtype} angles={angle_dtype}'
+        rec = {'directions': int(theta.size), 'index_dtype': str(ev['index'].dtype), 'pixel_dtype': str(ev['pixel'].dtype)}
+        same_shape = ev['index'].shape == ev['healpy'].shape == ev['pixel'].shape
+        if same_shape:
+            with np.errstate(invalid='ignore'):
+                bad = np.nonzero((ev['index'] != ev['healpy']) | (ev['pixel'] != ev['index']))[0]
+        else:
+            bad = np.arange(min(1, theta.size))
+        # structural clauses (dtype, arity) are judged on the first direction even without a mismatch
+        todo = list(bad) if len(bad) else [0]
+        nb, nfail, by_class = 0, 0, {}
+        for i in todo:
+            if nfail >= 3:
+                rec['unexamined_mismatches'] = int(len(todo) - todo.index(i))
+                break
+            msg = healpy_judge(nside, ev, int(i))
+            if msg is None:
+                nb += int(len(bad) > 0)
+                continue
+            nfail += 1
+            by_class[tag[i]] = by_class.get(tag[i], 0) + 1
+            if len(out['failures']) < 6:
                 out['failures'].append(
                     {
-                        'case': {'kind': 'healpy', 'nside': int(nside), 'theta': float(theta[i]), 'phi': float(phi[i]), 'x64': True},
-                        'observation': {'world2index': int(got[i]), 'healpy': int(exp[i]), 'class': tag[i]},
-                        'oracle': f'world2index={int(got[i])} but healpy.ang2pix={int(exp[i])} (nside={nside}, not within 1e-9 rad of a pixel boundary)',
+                        'case': healpy_case(nside, dtype, angle_dtype, ev['theta'][i], ev['phi'][i]),
+                        'observation': {'world2index': int(ev['index'][i]) if same_shape else None, 'healpy': int(ev['healpy'][i]), 'class': tag[i], 'mismatching_directions': int(len(bad)), 'of': int(theta.size)},
+                        'oracle': msg,
                         'key': None,
                     }
                 )
-        by_class = {}
-        for i in bad:
-            by_class[tag[i]] = by_class.get(tag[i], 0) + 1
-        out['per_nside'][str(nside)] = {'directions': int(theta.size), 'mismatches': int(bad.size), 'near_boundary': nb, 'mismatches_by_class': by_class, 'dtype': str(got.dtype)}
+        rec.update({'mismatches': int(len(bad)), 'within_rounding_tolerance': nb, 'failures': nfail, 'failures_by_class': by_class})
+        out['per_config'][name] = rec
         out['boundary_mismatches'] += nb
         out['directions'] += int(theta.size)
     return out
 
 
 def healpy_single(case):
-    import healpy as hp
-    import jax.numpy as jnp
-
-    from furax.landscapes import HealpixLandscape
-
-    got = int(HealpixLandscape(case['nside'], 'I').world2index(jnp.asarray([case['theta']]), jnp.asarray([case['phi']]))[0])
-    return {'world2index': got, 'healpy': int(hp.ang2pix(case['nside'], case['theta'], case['phi']))}
+    ev = healpy_eval(case['nside'], case.get('dtype', 'float64'), case.get('angle_dtype', 'float64'), [case['theta']], [case['phi']])
+    msg = healpy_judge(case['nside'], ev, 0)
+    return {'world2index': int(ev['index'].ravel()[0]), 'world2pixel': repr(ev['pixel'].ravel()[0]), 'pixel_dtype': str(ev['pixel'].dtype), 'index_dtype': str(ev['index'].dtype), 'healpy': int(ev['healpy'][0]), 'verdict': msg}
 
 
 # ----------------------------------------------------------------------------------------------
@@ -295,7 +439,7 @@ def worker_main():
             if req['op'] == 'case':
                 res = {'ok': lib.canon(impl_case(req['case']))}
             elif req['op'] == 'healpy':
-                res = {'ok': healpy_check(req['nsides'], req['nrandom'], req['seed'])}
+                res = {'ok': healpy_check(req['configs'], req['seed'])}
             elif req['op'] == 'healpy1':
                 res = {'ok': healpy_single(req['case'])}
             else:
@@ -330,17 +474,26 @@ def worker(x64: bool):
     return _workers[x64]
 
 
-def ask(x64: bool, req: dict):
+def submit(x64: bool, req: dict):
+    """Send a request to the worker of that mode; returns the function that waits for the answer."""
     p = worker(x64)
     p.stdin.write(json.dumps(req) + '\n')
     p.stdin.flush()
-    line = p.stdout.readline()
-    if not line:
-        raise RuntimeError('x64 worker died')
-    res = json.loads(line)
-    if 'err' in res:
-        raise RuntimeError(res['err'] + '\n' + res.get('tb', ''))
-    return res['ok']
+
+    def result():
+        line = p.stdout.readline()
+        if not line:
+            raise RuntimeError('x64 worker died')
+        res = json.loads(line)
+        if 'err' in res:
+            raise RuntimeError(res['err'] + '\n' + res.get('tb', ''))
+        return res['ok']
+
+    return result
+
+
+def ask(x64: bool, req: dict):
+    return submit(x64, req)()
 
 
 # ----------------------------------------------------------------------------------------------
@@ -641,7 +794,8 @@ class Check(PropertyCheck):
     # ---- implementation ----------------------------------------------------------------------
     def run_impl(self, case):
         if case['kind'] == 'healpy':
-            return ask(True, {'op': 'healpy1', 'case': case})
+            want = bool(case.get('x64', True))
+            return healpy_single(case) if x64_mode() == want else ask(want, {'op': 'healpy1', 'case': case})
         want = bool(case.get('x64', False))
         if x64_mode() == want:
             obs = lib.canon(impl_case(case))
@@ -694,9 +848,7 @@ class Check(PropertyCheck):
     def oracle_point(self, case, obs):
         kind = case['kind']
         if kind == 'healpy':
-            if obs['world2index'] != obs['healpy']:
-                return f'world2index={obs["world2index"]} but healpy.ang2pix={obs["healpy"]}', None
-            return None, None
+            return obs.get('verdict'), None
         by = case.get('by', 'shape')
         if case.get('land', 'car') == 'car' and by in ('both', 'none'):
             if obs != {'error': 'TypeError'}:
@@ -787,24 +939,51 @@ class Check(PropertyCheck):
         return case
 
     # ---- partial clause: numerical testing only ----------------------------------------------
-    def extra(self):
+    def healpy_configs(self, x64: bool):
+        """[nside, landscape dtype, angle dtype, random directions, every class of directions] for one x64 mode:
+        EVERY power-of-two resolution up to 8192 (16384 and 2^20 with x64: int64 pixel numbers) for EVERY
+        landscape dtype; float32 angles also under x64."""
         quick = self.tier == 'quick'
-        nsides = [2**k for k in range(0, 9 if quick else 11)]
-        res = ask(True, {'op': 'healpy', 'nsides': nsides, 'nrandom': 20000 if quick else 100000, 'seed': self.seed})
-        off = ask(False, {'op': 'healpy', 'nsides': nsides[:7], 'nrandom': 5000, 'seed': self.seed}) if x64_mode() else None
-        if off is None and not x64_mode():
-            # informative only: float32 pointing (x64 off) - mismatches are expected and not failures
-            off = healpy_check(nsides[:7], 5000, self.seed)
-        out = {
-            'healpy_agreement_x64_on': {k: v for k, v in res.items() if k != 'failures'},
-            'healpy_agreement_x64_off_informative': {
-                'per_nside': off['per_nside'],
-                'note': 'float32 angles (resolution ~1e-7 rad): differences from healpy (float64) on directions placed '
-                'within 1e-6 rad of a boundary are expected; informative, not counted as failures',
-            },
-            'failures': res['failures'],
+        configs = []
+        top = 14 if quick else 15
+        for k in range(0, top):
+            nside = 2**k
+            if nside > 8192 and not x64:
+                continue  # more than 2^31 - 1 pixels: needs int64
+            big = k >= 10
+            for dtype in ('float64', 'float32'):
+                if x64:
+                    n = (20000 if quick else 100000) if dtype == 'float64' else (5000 if quick else 20000)
+                    configs.append([nside, dtype, 'float64', n if not big else max(n, 20000), True])
+                    if big or k % 3 == 0 or not quick:
+                        configs.append([nside, dtype, 'float32', 5000, False])
+                else:
+                    configs.append([nside, dtype, 'float64', 5000 if not big else 20000, False])
+        if x64:
+            for nside in (16384, 2**20) if quick else (2**17, 2**20, 2**24):
+                for dtype in ('float64', 'float32'):
+                    configs.append([nside, dtype, 'float64', 5000, True])
+        return configs
+
+    def extra(self):
+        here = x64_mode()
+        other = submit(not here, {'op': 'healpy', 'configs': self.healpy_configs(not here), 'seed': self.seed})
+        mine = healpy_check(self.healpy_configs(here), self.seed)
+        res = {here: mine, (not here): other()}
+        note = (
+            'failures of this cross-check are reported as VIOLATION (replay: kind=healpy, nside, landscape dtype, angle '
+            'dtype, x64, theta, phi). A mismatch with healpy.ang2pix is tolerated only if the returned pixel overlaps the '
+            'disc of radius angle_tolerance(theta) around the direction: 1e-9 rad with double precision angles; with '
+            'single precision angle arithmetic (x64 off, or float32 angles) 16 ulp * (1 + 1/sin theta), and only random '
+            'directions, pixel centres and index-corner pixel centres are used (directions placed within 1e-6 rad of a '
+            'pixel boundary or of the phi wrap are not meaningful in float32)'
+        )
+        return {
+            'healpy_agreement_x64_on': {k: v for k, v in res[True].items() if k != 'failures'},
+            'healpy_agreement_x64_off': {k: v for k, v in res[False].items() if k != 'failures'},
+            'note': note,
+            'failures': res[True]['failures'] + res[False]['failures'],
         }
-        return out
 
 
 if __name__ == '__main__':
